@@ -373,6 +373,8 @@ def run(cx, rep):
     # ---------------------------------------------------------------- C08.5
     rep.rule("C08.5", "merging intersection members into one object is order-independent")
     all_of_merge_rule(cx, rep, "C08.5")
+    rep.rule("C08.10", "an intersection folded into one object keeps no index signature (declared keys would escape it)")
+    merged_object_closed_rule(cx, rep, "C08.10")
     rep.rule("C08.7", "the dispatch table and the schema table of a discriminated union are built alike")
     sibling_tables_rule(cx, rep, "C08.7")
     rep.rule("C08.8", "renaming, introducing or inlining a generic wrapper does not change what a type parameter means (scope stacks are searched innermost-first; = C01.8)")
@@ -453,3 +455,44 @@ def lost_update_rule(F, rep, rid, select, collect=False):
                    "%s stores with entry(..).or_insert(v) a value v that was computed from the map's existing entry: when the key is present - the only case in which the merge differs from the new value - nothing is stored, so the first declaration wins instead of the merged one" % g,
                    "%s:%s" % (f.file, x["line"]), sample={"fn": g, "value_derives_from_lookup_in_same_map": bad})
     return hits if collect else n
+
+
+def merged_object_closed_rule(cx, rep, rid):
+    """The runtime checks an index signature against the UNDECLARED keys only - sound for an object type literal,
+    where TypeScript forces every declared property to conform to the index signature.  In an intersection
+    `{name: T} & Record<string, V>` the property `name` has type `T & V`; as long as the two members stay separate
+    validators the dictionary member sees every key.  Folding the index signature into the merged object exempts the
+    declared keys from it, and the inline spelling of the intersection accepts values the spelling through aliases
+    (references are never merged) rejects.  Decided: every object the intersection constructor (and its private
+    helpers) builds from merged members has `indexed_properties: None`."""
+    F = cx.rs
+    RT = "ast::runtype::Runtype"
+    ao = [f for f in F.fns.values() if f.impl_self == RT and f.name == "all_of" and f.id in F.hir]
+    if len(ao) != 1:
+        rep.anchor_missing(rid, "Runtype::all_of")
+        return
+    n = 0
+    seen_fns = set()
+
+    def objects_built(gid, depth=0):
+        """(node, index-signature expression or None-marker) for every RuntypeKind::Object built in gid or, one level
+        down, in the Runtype constructor helpers it calls"""
+        out = []
+        for x, _o in walk_inlined(F, gid, private_only=True):
+            if x["k"] == "Struct" and (x.get("def") or "").endswith("RuntypeKind::Object"):
+                ip = [fl for fl in x.get("fields", []) if fl.get("name") == "indexed_properties"]
+                out.append((x, (ip[0].get("e") or ip[0].get("expr")) if ip else None))
+            elif x["k"] in ("Call", "MethodCall") and depth < 1:
+                g = F._callee_gid(ao[0].crate, x.get("callee") or "")
+                if g in F.hir and g != gid and F.fns[g].impl_self == RT and g not in seen_fns and F.fns[g].name != "all_of" \
+                        and "Runtype" in (F.fns[g].output or "") and not any(y["k"] == "Match" for y in walk(F.hir[g]["body"])):
+                    seen_fns.add(g)
+                    out += objects_built(g, depth + 1)
+        return out
+    for x, e in objects_built(ao[0].id):
+        n += 1
+        is_none = e is not None and e["k"] == "Path" and (e.get("def") or "").endswith("::None")
+        rep.ob(rid, "all_of/merged-object-has-no-index-signature#%d" % (n - 1), is_none,
+               "the intersection constructor builds a merged object whose index signature is not `None`: the runtime applies an index signature to the undeclared keys only, so `{name: T} & Record<string, V>` written inline stops requiring `name: V` while the same intersection through aliases still does",
+               "%s:%s" % (ao[0].file, x["line"]))
+    rep.floor(rid, "objects built by the intersection constructor", n, 1)
